@@ -11,6 +11,20 @@
 (* Inner (#a1), NoTag, Alt ($00 $01 $1), Hx (#1234 #5678abcd), Main = the shape  *)
 (* under a tag that cycles through #deadbeef, #a1, $101, none, #0c5, and Un =     *)
 (* 2..3 constructors ($0 $10 $11) carrying rotations of the shape.               *)
+(*                                                                               *)
+(* The Either family (shape numbers EBase + e, e < 96) enumerates the placement  *)
+(* of ^ around Either: for the type pairs (X, Y) = (Inner, uint16) and           *)
+(* (uint8, Alt), every (Either l r) with l, r in {X, ^X, Y, ^Y} (same and        *)
+(* different types; reference on the left only, on the right only, on both sides,*)
+(* on none), each (0) as the only field, (1) under Maybe, (2) between other       *)
+(* fields (bits and a reference before, a reference and a bit after, so a        *)
+(* reference that ends up in the wrong place also disturbs the order).  Values   *)
+(* of these schemas take the two sides in turn (and `nothing` under Maybe) by    *)
+(* vector number instead of by CRC.  Where the two sides differ in ^, a vector   *)
+(* also carries `wrong`: the cell of the same value under the declaration with   *)
+(* the ^ moved to the other side -- an expectation every judge must refuse       *)
+(* (TlbMini!Matches refuses it here; the check feeds it to the driver and to     *)
+(* TlbMini_Trace as canaries).                                                   *)
 EXTENDS TlbMini, Json, FiniteSets, TlChoice
 CONSTANTS Seed, Ns, PerSchema
 VARIABLE k
@@ -36,9 +50,32 @@ Alphabet == <<U(1), U(8), U(13), U(16), U(32), U(48), U(64), U(128), U(256),
               Nm("Inner"), Nm("NoTag"), Nm("Alt"), Nm("Hx"),
               Di(8, U(9)), Di(16, Rf(Nm("Inner"))), Di(32, Nm("Inner")), Di(256, U(1))>>
 NA == Len(Alphabet)
+
+\* ---- the Either family: e = pair * 48 + context * 16 + left * 4 + right
+EBase  == 9000000
+ECount == 96
+EPairs == << <<Nm("Inner"), U(16)>>, <<U(8), Nm("Alt")>> >>
+ESides(p) == <<p[1], Rf(p[1]), p[2], Rf(p[2])>>
+IsE(n)  == n >= EBase
+ECtx(e) == (e % 48) \div 16
+EiOf(e) == LET s == ESides(EPairs[(e \div 48) + 1]) IN Ei(s[((e % 16) \div 4) + 1], s[(e % 4) + 1])
+EShape(e) == CASE ECtx(e) = 0 -> <<EiOf(e)>>
+               [] ECtx(e) = 1 -> <<Mb(EiOf(e))>>
+               [] ECtx(e) = 2 -> <<U(13), Rf(U(32)), EiOf(e), Rf(Nm("NoTag")), Bo>>
+EField(e) == IF ECtx(e) = 2 THEN "f3" ELSE "f1"          \* where Main keeps the Either
+
 Shape(n) == IF n < NA THEN <<Alphabet[n + 1]>>
+            ELSE IF IsE(n) THEN EShape(n - EBase)
             ELSE LET ctx == B4(Seed) \o B4(n) \o <<78>>  len == 2 + Pick(ctx, 3)
                  IN [i \in 1..len |-> Alphabet[Pick(ctx \o <<i>>, NA) + 1]]
+
+\* the same declaration with the ^ of the two sides of every Either exchanged (types stay where they are)
+StripRef(ty) == IF ty.t = "ref" THEN ty.of ELSE ty
+SwapEi(ty)   == Ei(IF ty.r.t = "ref" THEN Rf(StripRef(ty.l)) ELSE StripRef(ty.l),
+                   IF ty.l.t = "ref" THEN Rf(StripRef(ty.r)) ELSE StripRef(ty.r))
+SwapTy(ty)   == IF ty.t = "either" THEN SwapEi(ty)
+                ELSE IF ty.t = "maybe" /\ ty.of.t = "either" THEN Mb(SwapEi(ty.of)) ELSE ty
+SwapShape(sh) == [i \in 1..Len(sh) |-> SwapTy(sh[i])]
 
 \* label of a kind = its TL-B text; the two Either kinds that put ^ on one side of two different types share a label
 RECURSIVE TyText(_)
@@ -52,17 +89,24 @@ TyText(ty) ==
     [] ty.t = "anon"   -> "[anon]"
     [] ty.t = "named"  -> ty.name
     [] ty.t = "dict"   -> StrCat("(HashmapE ", StrCat(ToString(ty.n), StrCat(" ", StrCat(TyText(ty.val), ")"))))
+\* classes of Either by where the ^ stands; the classic forms (no ^, X / ^X) keep their text
+EiClass(ty) ==
+  LET lr == ty.l.t = "ref"  rr == ty.r.t = "ref"  same == TyText(StripRef(ty.l)) = TyText(StripRef(ty.r)) IN
+  IF ~lr /\ ~rr THEN TyText(ty)
+  ELSE IF same THEN (IF ~lr THEN TyText(ty) ELSE IF ~rr THEN "Either-same-type-^-on-the-left-only" ELSE "Either-same-type-^-on-both-sides")
+  ELSE IF lr /\ rr THEN "Either-different-types-^-on-both-sides"
+  ELSE "Either-with-^-on-one-side-of-different-types"
 KLabel(ty) ==
-  IF ty.t = "either" /\ (ty.l.t = "ref" \/ ty.r.t = "ref") /\ ~(ty.r.t = "ref" /\ TyText(ty.r.of) = TyText(ty.l))
-    THEN "Either-with-^-on-one-side-of-different-types"
-    ELSE TyText(ty)
+  IF ty.t = "either" THEN EiClass(ty)
+  ELSE IF ty.t = "maybe" /\ ty.of.t = "either" /\ EiClass(ty.of) # TyText(ty.of) THEN EiClass(ty.of)     \* the class also when nested under Maybe
+  ELSE TyText(ty)
 
 Fields(sh) == [i \in 1..Len(sh) |-> F(StrCat("f", ToString(i)), sh[i])]
 Rot(sh, r) == [i \in 1..Len(sh) |-> sh[((i - 1 + r) % Len(sh)) + 1]]
 MainTags == <<"#deadbeef", "#a1", "$101", "", "#0c5">>
 D(c, tag, res, fs) == [ctor |-> c, tag |-> tag, result |-> res, fields |-> fs]
-SchemaOf(n) ==
-  LET sh == Shape(n)  ku == 2 + (n % 2) IN
+SchemaFor(n, sh) ==
+  LET ku == 2 + (n % 2) IN
   [decls |->
      <<D("inner", "#a1", "Inner", <<F("a", U(8)), F("b", I(32))>>),
        D("notag", "", "NoTag", <<F("a", U(8))>>),
@@ -73,6 +117,7 @@ SchemaOf(n) ==
        D("hx_b", "#5678abcd", "Hx", <<F("r", I(7))>>),
        D("main", MainTags[(n % Len(MainTags)) + 1], "Main", Fields(sh))>>
      \o [i \in 1..ku |-> D(StrCat("un_", SubStr("abc", i, i)), <<"$0", "$10", "$11">>[i], "Un", Fields(Rot(sh, i - 1)))]]
+SchemaOf(n) == SchemaFor(n, Shape(n))
 
 \* ------------------------------------------------------------------ values
 UDec(b) == IF \A i \in 1..Len(b) : b[i] = 0 THEN "0" ELSE BitsToDec(b)
@@ -84,6 +129,12 @@ RECURSIVE SortBits(_)
 SortBits(set) == IF set = {} THEN <<>>
                  ELSE LET m == CHOOSE x \in set : \A y \in set \ {x} : BLess(x, y) IN <<m>> \o SortBits(set \ {m})
 
+\* contexts are B4(Seed) \o B4(schema) \o B4(vector number) \o path.  In the Either family the vector number decides
+\* which side an Either takes and whether a Maybe holds a value: 1 right, 2 left, 3 nothing / right, 0 left (mod 4)
+VecNo(ctx)    == ctx[9]
+TakeRight(ctx) == IF IsE(k) THEN VecNo(ctx) % 2 = 1 ELSE Pick(ctx \o <<4>>, 2) = 1
+TakeNone(ctx)  == IF IsE(k) THEN VecNo(ctx) % 4 = 3 ELSE Pick(ctx \o <<2>>, 2) = 0
+
 RECURSIVE GenV(_, _, _, _), GenFs(_, _, _, _, _, _)
 GenFs(S, fs, ctx, dep, i, acc) ==
   IF i > Len(fs) THEN acc ELSE GenFs(S, fs, ctx, dep, i + 1, acc @@ (fs[i].name :> GenV(S, fs[i].ty, ctx \o <<i>>, dep + 1)))
@@ -93,8 +144,8 @@ GenV(S, ty, ctx, dep) ==
     [] ty.t = "int"    -> B!SDec(PatBits(ctx, ty.n))
     [] ty.t = "bits"   -> BitsToStr(PatBits(ctx, ty.n))
     [] ty.t = "bool"   -> Pick(ctx \o <<1>>, 2) = 1
-    [] ty.t = "maybe"  -> IF Pick(ctx \o <<2>>, 2) = 0 THEN [m |-> "none"] ELSE [m |-> "just", v |-> GenV(S, ty.of, ctx \o <<3>>, dep)]
-    [] ty.t = "either" -> IF Pick(ctx \o <<4>>, 2) = 0 THEN [e |-> "l", v |-> GenV(S, ty.l, ctx \o <<5>>, dep)]
+    [] ty.t = "maybe"  -> IF TakeNone(ctx) THEN [m |-> "none"] ELSE [m |-> "just", v |-> GenV(S, ty.of, ctx \o <<3>>, dep)]
+    [] ty.t = "either" -> IF ~TakeRight(ctx) THEN [e |-> "l", v |-> GenV(S, ty.l, ctx \o <<5>>, dep)]
                           ELSE [e |-> "r", v |-> GenV(S, ty.r, ctx \o <<6>>, dep)]
     [] ty.t = "ref"    -> GenV(S, ty.of, ctx \o <<7>>, dep)
     [] ty.t = "anon"   -> GenFs(S, ty.fields, ctx, dep, 1, "_" :> "")
@@ -113,11 +164,31 @@ VecOf(S, j) ==
       v    == GenRoot(S, name, B4(Seed) \o B4(k) \o B4(j), j - 1)
       fits == Fits(S, ty, v)
       base == [vec |-> j - 1, ty |-> name, v |-> v, fits |-> fits, sane |-> ValidTy(S, ty, v)]
-  IN IF fits /\ ~HasDict(S, ty, 4) THEN base @@ [cell |-> CellJ(Enc(S, ty, v))] ELSE base
+      cell == CellJ(Enc(S, ty, v))
+      \* Either family: the cell this value has when the ^ of the two sides is exchanged (where that makes a difference)
+      wrong == CellJ(Enc(SchemaFor(k, SwapShape(Shape(k))), ty, v))
+  IN IF fits /\ ~HasDict(S, ty, 4)
+       THEN (IF IsE(k) /\ wrong # cell THEN base @@ [cell |-> cell, wrong |-> wrong] ELSE base @@ [cell |-> cell])
+       ELSE base
+
+\* which side Main's Either takes in value v of an Either-family schema
+ESide(n, v) == LET x == v[EField(n - EBase)] IN IF ECtx(n - EBase) = 1 THEN (IF x.m = "none" THEN "none" ELSE x.v.e) ELSE x.e
+\* not vacuous: Main takes both sides (and `nothing` under Maybe); where the sides differ in ^, each side has its `wrong`
+ECovered(n, vs) ==
+  LET mains == {j \in 1..Len(vs) : vs[j].ty = "Main"}
+      sides == {ESide(n, vs[j].v) : j \in mains}
+      ei    == EiOf(n - EBase) IN
+  /\ {"l", "r"} \subseteq sides /\ (ECtx(n - EBase) = 1 => "none" \in sides)
+  /\ \A j \in mains : "cell" \in DOMAIN vs[j]
+  /\ (ei.l.t = "ref") # (ei.r.t = "ref") => \A sd \in {"l", "r"} : \E j \in mains : ESide(n, vs[j].v) = sd /\ "wrong" \in DOMAIN vs[j]
 
 Out(n) == LET S == SchemaOf(n)  vs == [j \in 1..PerSchema |-> VecOf(S, j)] IN
           [schema |-> n, ast |-> S, kinds |-> [i \in 1..Len(Shape(n)) |-> KLabel(Shape(n)[i])], vecs |-> vs,
-           sane |-> \A j \in 1..PerSchema : vs[j].sane /\ ("cell" \in DOMAIN vs[j] => Matches(S, Nm(vs[j].ty), vs[j].v, CellOf(vs[j].cell)) /\ CellFits(CellOf(vs[j].cell)))]
+           sane |-> /\ \A j \in 1..PerSchema :
+                         /\ vs[j].sane
+                         /\ ("cell" \in DOMAIN vs[j] => Matches(S, Nm(vs[j].ty), vs[j].v, CellOf(vs[j].cell)) /\ CellFits(CellOf(vs[j].cell)))
+                         /\ ("wrong" \in DOMAIN vs[j] => ~Matches(S, Nm(vs[j].ty), vs[j].v, CellOf(vs[j].wrong)))
+                    /\ (IsE(n) => ECovered(n, vs))]
 
 Init == k \in Ns
 Next == UNCHANGED k
